@@ -207,6 +207,38 @@ theorem load_first_same_canonical (c : Cfg) (d d' : KVs) (rest : List KVs)
     ⟨d, d', .map d, .map d', front_skip c d hi he, front_skip c d' hi he,
       by rw [preCanonical_first c d hk hv, hu]; rfl, by rw [preCanonical_first c d' hk' hv, hu']; rfl, by rw [hi]; exact hc⟩
 
+theorem erase_absent {k : String} : ∀ {m : KVs}, k ∉ m.map Prod.fst → Val.erase k m = m
+  | [], _ => rfl
+  | (k', v) :: r, h => by
+    simp only [List.map_cons, List.mem_cons, not_or] at h
+    simp only [Val.erase, h.1, if_false, erase_absent h.2]
+
+/-- the stages in front of `Canonical` on a first document **with validation**: a schema-valid document without a
+`version` key (the key `processRawYaml` deletes after validation) reaches `Canonical` as `EnforceUnicity` leaves it -/
+theorem preCanonical_first_valid (c : Cfg) (cfg : KVs) (h : (cfg.map Prod.fst).Nodup)
+    (hu : Unicity.enforceTop (.map cfg) = .ok (.map cfg))
+    (hs : c.opts.skipValidation = true ∨ (Schema.conforms Gen.composeSchema (.map cfg) = true ∧ "version" ∉ cfg.map Prod.fst)) :
+    preCanonical c (.map []) cfg = .ok (.map cfg) := by
+  simp only [preCanonical, merge_into_empty cfg h, ofMerge, Out.bind, hu]
+  rcases hs with hv | ⟨hc, hver⟩
+  · simp [schemaStage, hv]
+  · simp [schemaStage, hc, erase_absent hver]
+
+/-- **first file, with schema validation on**: two schema-valid spellings (no `version` key) of a document with
+distinct top-level keys and nothing for `EnforceUnicity` to fold, with the same canonical tree, load alike — any further
+files; only `SkipInterpolation` and `SkipExtends` are still assumed -/
+theorem load_first_same_canonical_valid (c : Cfg) (d d' : KVs) (rest : List KVs)
+    (hi : c.opts.skipInterpolation = true) (he : c.opts.skipExtends = true)
+    (hk : (d.map Prod.fst).Nodup) (hk' : (d'.map Prod.fst).Nodup)
+    (hu : Unicity.enforceTop (.map d) = .ok (.map d)) (hu' : Unicity.enforceTop (.map d') = .ok (.map d'))
+    (hs : Schema.conforms Gen.composeSchema (.map d) = true ∧ "version" ∉ d.map Prod.fst)
+    (hs' : Schema.conforms Gen.composeSchema (.map d') = true ∧ "version" ∉ d'.map Prod.fst)
+    (hc : Short.canonical true (.map d) = Short.canonical true (.map d')) :
+    load c (d :: rest) = load c (d' :: rest) :=
+  load_short_eq_long_first c d d' rest
+    ⟨d, d', .map d, .map d', front_skip c d hi he, front_skip c d' hi he,
+      preCanonical_first_valid c d hk hu (Or.inr hs), preCanonical_first_valid c d' hk' hu' (Or.inr hs'), by rw [hi]; exact hc⟩
+
 /-- **instance, `include`**: `include: [path]` ≡ `include: [{path: path}]` through the whole load (the include list is
 canonicalised before `ApplyInclude` reads it; the composed model runs with `SkipInclude`) -/
 theorem load_first_include (c : Cfg) (top1 top2 : KVs) (pre post : List Val) (s : String) (rest : List KVs)
